@@ -122,11 +122,33 @@ impl Worker {
         }
         self.last_phase.clear();
         let deadline = std::time::Instant::now() + timeout;
+        let pid = self.child.id();
+        let mut phase_cpu0 = cpu_seconds(pid);
         let next = loop {
             let left = deadline.saturating_duration_since(std::time::Instant::now());
-            match self.rx.recv_timeout(left) {
+            match self.rx.recv_timeout(left.min(Duration::from_millis(1000))) {
                 Ok(l) if l.starts_with("#phase ") => {
                     self.last_phase = l[7..].to_string();
+                    phase_cpu0 = cpu_seconds(pid);
+                    continue;
+                }
+                Err(RecvTimeoutError::Timeout) if !left.is_zero() && left > Duration::from_millis(1000) => {
+                    if self.last_phase.starts_with("call") {
+                        if let (Some(a), Some(b)) = (phase_cpu0, cpu_seconds(pid)) {
+                            if b - a >= SPIN_CPU_S {
+                                let _ = self.child.kill();
+                                let _ = self.child.wait();
+                                let phase = self.last_phase.clone();
+                                self.respawn();
+                                // the worker burnt seconds of CPU inside one `call` phase (calling a
+                                // function whose original and fakes are a handful of instructions)
+                                // without finishing it: the patched code loops.  Unlike the
+                                // wall-clock watchdog this does not depend on machine load, so it is
+                                // reported like a crash of the call.
+                                return Exec::Died { signal: None, code: None, phase: format!("{phase}-never-returns"), stderr_tail: format!("the call did not return: the worker consumed {:.1} s of CPU in this phase and was killed", b - a) };
+                            }
+                        }
+                    }
                     continue;
                 }
                 other => break other,
@@ -160,6 +182,21 @@ impl Drop for Worker {
         let _ = self.child.wait();
         let _ = std::fs::remove_file(&self.stderr_path);
     }
+}
+
+/// CPU seconds a `call` phase may burn before the call counts as never returning
+pub const SPIN_CPU_S: f64 = 6.0;
+
+/// user+system CPU time consumed so far by process `pid` (all threads), in seconds
+fn cpu_seconds(pid: u32) -> Option<f64> {
+    let s = std::fs::read_to_string(format!("/proc/{pid}/stat")).ok()?;
+    let rest = &s[s.rfind(')')? + 1..];
+    let f: Vec<&str> = rest.split_whitespace().collect();
+    // after the command name: state is field 0, utime field 11, stime field 12
+    let ut: f64 = f.get(11)?.parse().ok()?;
+    let st: f64 = f.get(12)?.parse().ok()?;
+    let hz = unsafe { libc::sysconf(libc::_SC_CLK_TCK) } as f64;
+    Some((ut + st) / hz.max(1.0))
 }
 
 pub fn signal_name(s: i32) -> &'static str {
